@@ -1061,9 +1061,11 @@ func (val Value) HasIndex(key Value) Value {
 //
 // This method will panic if the receiver is not a set, or if it is a null set.
 func (val Value) HasElement(elem Value) Value {
-	if val.IsMarked() || elem.IsMarked() {
+	if val.IsMarked() || elem.ContainsMarked() {
+		// The given element is compared as a whole, including anything
+		// nested inside it, so its marks at any depth belong to the result.
 		val, valMarks := val.Unmark()
-		elem, elemMarks := elem.Unmark()
+		elem, elemMarks := elem.UnmarkDeep()
 		return val.HasElement(elem).WithMarks(valMarks, elemMarks)
 	}
 
